@@ -2,7 +2,7 @@
 # Runs every check on every behaviour-preserving variant in selftest/benign/*.diff (scratch copies of /repo under
 # ${VERIF_SCRATCH:-/var/tmp}, removed afterwards).  Every variant must stay silent, except those listed in
 # selftest/benign/KNOWN_LIMITS (checker limitation, documented in DESIGN.md 9.8).
-# usage: selftest/run_benign.sh [jobs] [variant.diff ...]
+# usage: [CHECKS="C10 C12"] selftest/run_benign.sh [jobs] [variant.diff ...]
 V=$(cd "$(dirname "$0")/.." && pwd)
 jobs=${1:-4}; shift
 one() {
@@ -10,7 +10,7 @@ one() {
   base=${VERIF_SCRATCH:-/var/tmp}/verif-benign-$name-$$
   rm -rf "$base"; mkdir -p "$base"; rsync -a --exclude target --exclude .git /repo/ "$base/"
   if ! (cd "$base" && patch -p1 -s < "$p"); then echo "$name PATCH-FAILED"; rm -rf "$base"; return; fi
-  out=$(for c in C01 C02 C03 C04 C05 C06 C07 C08 C09 C10 C11 C12 C13 C14 C15 C16 C17 C18 C19 C20; do
+  out=$(for c in ${CHECKS:-C01 C02 C03 C04 C05 C06 C07 C08 C09 C10 C11 C12 C13 C14 C15 C16 C17 C18 C19 C20}; do
     VERIF_REPO=$base VERIF_SECOND_PASS=benign-$name "$V/check" $c 2>&1; done)
   rm -rf "$base"
   echo "$name alarms=$(echo "$out" | grep -c '^VIOLATION') $(echo "$out" | grep '^VIOLATION' | sed 's/ replay=.*//' | sort -u | tr '\n' ' ')$(echo "$out" | grep -A1 '^VIOLATION' | grep '^  ' | cut -c1-160 | head -3 | tr '\n' '|')"
